@@ -8,6 +8,7 @@ package main
 import (
 	"database/sql"
 	"encoding/json"
+	"context"
 	"errors"
 	"fmt"
 	"os"
@@ -37,6 +38,11 @@ type Owner struct {
 	ID   uint `gorm:"primaryKey"`
 	Name string
 	Pets []Pet
+	Tags []Tag `gorm:"many2many:owner_tags"`
+}
+type Tag struct {
+	ID   uint `gorm:"primaryKey"`
+	Name string
 }
 type Pet struct {
 	ID      uint `gorm:"primaryKey"`
@@ -57,6 +63,15 @@ type Audit struct {
 func (n *Note) AfterCreate(tx *gorm.DB) error {
 	return tx.Exec("INSERT INTO audits (msg) VALUES (?)", n.Body).Error
 }
+func (n *Note) BeforeUpdate(tx *gorm.DB) error {
+	return tx.Exec("INSERT INTO audits (msg) VALUES (?)", "before update").Error
+}
+func (n *Note) BeforeDelete(tx *gorm.DB) error {
+	return tx.Exec("INSERT INTO audits (msg) VALUES (?)", "before delete").Error
+}
+func (n *Note) AfterDelete(tx *gorm.DB) error {
+	return tx.Exec("INSERT INTO audits (msg) VALUES (?)", "after delete").Error
+}
 
 var oldTime = time.Date(2020, 1, 2, 3, 4, 5, 0, time.UTC)
 
@@ -72,6 +87,12 @@ type XOp struct {
 type Input struct {
 	Mode string      `json:"mode"` // config | session | tosql
 	Skip bool        `json:"skip"` // SkipDefaultTransaction
+	NoRet  bool `json:"noret,omitempty"`  // the dialect has no RETURNING (SQLite < 3.35): writes go through ExecContext + LastInsertId
+	Prep   bool `json:"prep,omitempty"`   // Session{PrepareStmt: true}
+	Global bool `json:"global,omitempty"` // Session{AllowGlobalUpdate: true}
+	QF     bool `json:"qf,omitempty"`     // Session{QueryFields: true}
+	Ctx    bool `json:"ctx,omitempty"`    // WithContext(ctx)
+	FailBegin bool `json:"fail_begin,omitempty"` // the database refuses the implicit Begin
 	Carry bool       `json:"carry,omitempty"` // the chain is on the handle before DryRun / ToSQL is switched on
 	C01  *cgen.Input `json:"c01,omitempty"`
 	X    *XOp        `json:"x,omitempty"`
@@ -114,6 +135,20 @@ func xFin(db *gorm.DB, x XOp) *gorm.DB {
 		return db.Create(&Doc{Title: x.Title})
 	case "update":
 		return db.Model(&Doc{}).Where("id = ?", x.ID).Update("title", x.Title)
+	case "hook_update": // BeforeUpdate runs a statement first
+		return db.Model(&Note{ID: uint(x.ID)}).Update("body", x.Title)
+	case "hook_delete": // BeforeDelete before, AfterDelete after the main statement
+		return db.Delete(&Note{ID: uint(x.ID)})
+	case "assoc_delete_m2m":
+		return db.Select("Tags").Delete(&Owner{ID: uint(x.ID)})
+	case "parse_error": // no table can be derived from the destination
+		var n int
+		return db.Find(&n)
+	case "first_nilptr": // a nil pointer destination is allocated by Execute
+		var d *Doc
+		return db.Where("title <> ?", x.Title).First(&d)
+	case "exec_bad": // the database rejects the statement
+		return db.Exec("UPDATE no_such_table SET a = ? WHERE b = ?", x.Title, x.ID)
 	case "hook_create": // AfterCreate runs INSERT INTO audits on the tx it gets
 		return db.Create(&Note{Body: x.Title})
 	case "assoc_delete":
@@ -240,8 +275,11 @@ type env struct {
 	sqlDB        *sql.DB
 }
 
-func openEnv() env {
+func openEnv(noReturning bool) env {
 	sqlDB, rec := recdrv.Open(":memory:")
+	if noReturning {
+		rec.FakeVersion = "3.30.0" // the dialector then registers its callbacks without RETURNING
+	}
 	sqlDB.SetMaxOpenConns(1)
 	now := func() time.Time { return fixedNow }
 	mk := func(dry bool) *gorm.DB {
@@ -250,7 +288,7 @@ func openEnv() env {
 		return db
 	}
 	e := env{real: mk(false), dryCfg: mk(true), rec: rec, sqlDB: sqlDB}
-	lib.Must(e.real.AutoMigrate(&cgen.Item{}, &Doc{}, &Owner{}, &Pet{}, &Note{}, &Audit{}))
+	lib.Must(e.real.AutoMigrate(&cgen.Item{}, &Doc{}, &Owner{}, &Pet{}, &Tag{}, &Note{}, &Audit{}))
 	e.reseed()
 	return e
 }
@@ -258,7 +296,10 @@ func openEnv() env {
 // reseed restores the data both runs start from (through database/sql directly).
 func (e env) reseed() {
 	for _, q := range []string{
-		"DELETE FROM items", "DELETE FROM docs", "DELETE FROM owners", "DELETE FROM pets", "DELETE FROM notes", "DELETE FROM audits",
+		"DELETE FROM items", "DELETE FROM docs", "DELETE FROM owners", "DELETE FROM pets", "DELETE FROM notes", "DELETE FROM audits", "DELETE FROM tags", "DELETE FROM owner_tags",
+		"INSERT INTO notes (id, body) VALUES (1,'n1'),(2,'n2')",
+		"INSERT INTO tags (id, name) VALUES (1,'t1'),(2,'t2')",
+		"INSERT INTO owner_tags (owner_id, tag_id) VALUES (1,1),(1,2),(2,1)",
 		"INSERT INTO owners (id, name) VALUES (1,'o1'),(2,'o2')",
 		"INSERT INTO pets (id, owner_id, name) VALUES (1,1,'p1'),(2,1,'p2'),(3,2,'p3')",
 		"INSERT INTO items (id, name, code, age, active, data, note) VALUES (1,'ann','c1',20,1,x'6431','n1'),(2,'bob','c2',31,0,x'6432',NULL),(3,'cid','c1',44,1,NULL,NULL)",
@@ -270,9 +311,12 @@ func (e env) reseed() {
 	e.rec.Reset()
 }
 
-func (e env) events() []Ev {
+func (e env) events(dry bool) []Ev {
 	var out []Ev
 	for _, ev := range e.rec.Snapshot() {
+		if ev.Kind == "prepare" && !dry {
+			continue // PrepareStmt mode: the real run prepares, then executes the prepared statement
+		}
 		switch ev.Kind {
 		case "begin", "commit", "rollback":
 			out = append(out, Ev{K: ev.Kind, Err: ev.Err != ""})
@@ -287,16 +331,25 @@ func (e env) events() []Ev {
 	return out
 }
 
-func capture(e env, f func() *gorm.DB) (r Run) {
+func capture(e env, dry, failBegin bool, f func() *gorm.DB) (r Run) {
 	e.reseed()
+	if failBegin {
+		e.rec.Fault = func(idx int, ev *recdrv.Event) error {
+			if ev.Kind == "begin" {
+				return recdrv.ErrInjected
+			}
+			return nil
+		}
+	}
 	defer func() {
+		e.rec.Fault = nil
 		if p := recover(); p != nil {
 			r.Err = fmt.Sprint("panic: ", p)
-			r.Log = e.events()
+			r.Log = e.events(dry)
 		}
 	}()
 	tx := f()
-	r.Log = e.events()
+	r.Log = e.events(dry)
 	r.SQL = tx.Statement.SQL.String()
 	r.Vars = cgen.CanonAll(tx.Statement.Vars)
 	if tx.Error != nil && !errors.Is(tx.Error, gorm.ErrRecordNotFound) {
@@ -305,29 +358,42 @@ func capture(e env, f func() *gorm.DB) (r Run) {
 	return r
 }
 
-func runCase(e env, in Input) Observed {
+func runCase(envs [2]env, in Input) Observed {
 	var o Observed
-	skip := &gorm.Session{SkipDefaultTransaction: in.Skip}
+	e := envs[0]
+	if in.NoRet {
+		e = envs[1]
+	}
+	opts := func(db *gorm.DB, dryRun bool) *gorm.DB {
+		tx := db.Session(&gorm.Session{SkipDefaultTransaction: in.Skip, PrepareStmt: in.Prep, AllowGlobalUpdate: in.Global,
+			QueryFields: in.QF, DryRun: dryRun})
+		if in.Ctx {
+			tx = tx.WithContext(context.WithValue(context.Background(), ctxKey{}, "c19"))
+		}
+		return tx
+	}
 	switch in.Mode {
 	case "config":
-		o.Dry = capture(e, func() *gorm.DB { return opFin(opBase(e.dryCfg.Session(skip), in), in) })
+		o.Dry = capture(e, true, in.FailBegin, func() *gorm.DB { return opFin(opBase(opts(e.dryCfg, false), in), in) })
 	case "session":
-		o.Dry = capture(e, func() *gorm.DB {
-			return opFin(opBase(e.real.Session(skip), in).Session(&gorm.Session{DryRun: true, SkipDefaultTransaction: in.Skip}), in)
+		o.Dry = capture(e, true, in.FailBegin, func() *gorm.DB {
+			return opFin(opBase(opts(e.real, false), in).Session(&gorm.Session{DryRun: true, SkipDefaultTransaction: in.Skip}), in)
 		})
 	case "tosql":
-		o.Dry = capture(e, func() *gorm.DB {
+		o.Dry = capture(e, true, in.FailBegin, func() *gorm.DB {
 			var res *gorm.DB
-			opBase(e.real.Session(skip), in).ToSQL(func(tx *gorm.DB) *gorm.DB {
+			opBase(opts(e.real, false), in).ToSQL(func(tx *gorm.DB) *gorm.DB {
 				res = opFin(tx, in)
 				return res
 			})
 			return res
 		})
 	}
-	o.Real = capture(e, func() *gorm.DB { return opFin(opBase(e.real.Session(skip), in), in) })
+	o.Real = capture(e, false, in.FailBegin, func() *gorm.DB { return opFin(opBase(opts(e.real, false), in), in) })
 	return o
 }
+
+type ctxKey struct{}
 
 // ---- classification of the operation (input of the pipeline model) ----
 func classify(in Input) (kind, fin string, ret bool) {
@@ -340,8 +406,20 @@ func classify(in Input) (kind, fin string, ret bool) {
 			return "OpCreate", "FBatch", true
 		case "hook_create":
 			return "OpCreate", "(FNested 0 1)", true
-		case "assoc_delete", "assoc_delete_all":
+		case "hook_update":
+			return "OpUpdate", "(FNested 1 0)", false
+		case "hook_delete":
+			return "OpDelete", "(FNested 1 1)", false
+		case "assoc_delete_m2m":
 			return "OpDelete", "(FNested 1 0)", false
+		case "parse_error", "first_nilptr":
+			return "OpQuery", fin, false
+		case "exec_bad":
+			return "OpRaw", fin, false
+		case "assoc_delete":
+			return "OpDelete", "(FNested 1 0)", false
+		case "assoc_delete_all": // Pets and Tags, in map order
+			return "OpDelete", "(FNested 2 0)", false
 		case "preload_keyed":
 			return "OpQuery", "(FNested 0 1)", false
 		case "begin_create":
@@ -412,6 +490,13 @@ func gEv(e Ev) string {
 
 func term(in Input, o Observed) string {
 	kind, fin, ret := classify(in)
+	if in.NoRet {
+		ret = false
+	}
+	dorc := make([]string, len(o.Dry.Log))
+	for i, e := range o.Dry.Log {
+		dorc[i] = lib.App("mk_dres", lib.Bool(e.Err), lib.Z(1))
+	}
 	mode := map[string]string{"config": "MConfig", "session": "MSession", "tosql": "MToSQL"}[in.Mode]
 	// the oracle: what the database answered to each driver call of the real run
 	orc := make([]string, len(o.Real.Log))
@@ -442,13 +527,13 @@ func term(in Input, o Observed) string {
 		}
 		orc[i] = lib.App("mk_dres", lib.Bool(e.Err), lib.Z(rows))
 	}
-	return lib.App("mk_case", kind, fin, mode, lib.Bool(in.Skip), lib.Bool(ret), lib.List(orc),
+	return lib.App("mk_case", kind, fin, mode, lib.Bool(in.Skip), lib.Bool(ret), lib.List(orc), lib.List(dorc),
 		lib.ListOf(o.Dry.Log, gEv), lib.Str(o.Dry.SQL), lib.ListOf(o.Dry.Vars, func(s cgen.Sc) string { return s.Coq() }), lib.Bool(o.Dry.Err != ""),
 		lib.ListOf(o.Real.Log, gEv), lib.Bool(o.Real.Err != ""))
 }
 
 func shape(in Input) string {
-	s := in.Mode + fmt.Sprint(in.Skip, in.Carry) + "|"
+	s := in.Mode + fmt.Sprint(in.Skip, in.Carry, in.NoRet, in.Prep, in.Global, in.QF, in.Ctx, in.FailBegin) + "|"
 	if in.X != nil {
 		return s + "x:" + in.X.K
 	}
@@ -457,7 +542,7 @@ func shape(in Input) string {
 
 func main() {
 	a := lib.ParseArgs()
-	e := openEnv()
+	e := [2]env{openEnv(false), openEnv(true)}
 	out := lib.NewOut(a.Out, "C19")
 	out.PerFile = 200
 
@@ -474,6 +559,7 @@ func main() {
 			Kind: kind, Shape: shape(in), Nontriv: stmts >= 1 && len(o.Dry.Vars) >= 1})
 		out.Count("mode", in.Mode)
 		out.Count("skip_default_transaction", fmt.Sprint(in.Skip))
+		out.Count("options", fmt.Sprintf("noreturning=%v prepare=%v queryfields=%v ctx=%v global=%v failbegin=%v", in.NoRet, in.Prep, in.QF, in.Ctx, in.Global, in.FailBegin))
 		out.Count("state_carried_by_handle", fmt.Sprint(in.Carry || (in.X != nil && strings.HasPrefix(in.X.K, "carry_"))))
 		out.Count("operation", k+"/"+fin)
 		out.Count("dry_driver_calls", fmt.Sprint(len(o.Dry.Log)))
@@ -531,10 +617,16 @@ func main() {
 		"update_returning", "delete_returning", "unscoped_delete_returning", "carry_find", "carry_first", "carry_count", "carry_update",
 		"batch_create", "batchsize_create", "update_nocond", "updates_nocond", "update_column_nocond", "delete_nocond", "unscoped_delete_nocond",
 		"hook_create", "assoc_delete", "assoc_delete_all", "preload_keyed", "begin_create", "begin_update", "row", "raw_row_returning", "scan",
-		"save_slice_preset", "save_struct_preset"}
+		"save_slice_preset", "save_struct_preset",
+		"hook_update", "hook_delete", "assoc_delete_m2m", "parse_error", "first_nilptr", "exec_bad"}
 	n := 0
 	for i := 0; i < budget; i++ {
 		in := Input{Mode: lib.Pick(r, []string{"config", "session", "tosql"}), Skip: r.Chance(1, 3)}
+		in.NoRet = r.Chance(1, 4)
+		in.Prep = r.Chance(1, 8)
+		in.QF = r.Chance(1, 8)
+		in.Ctx = r.Chance(1, 8)
+		in.FailBegin = !in.Skip && in.Mode != "tosql" && r.Chance(1, 12)
 		kind := "main"
 		if r.Chance(2, 5) {
 			n++
@@ -549,6 +641,15 @@ func main() {
 			if strings.HasPrefix(k, "begin_") && in.Mode == "tosql" {
 				in.Mode = lib.Pick(r, []string{"config", "session"}) // an explicit Begin is a driver call of the caller's own
 			}
+			if strings.HasSuffix(k, "_nocond") {
+				in.Global = r.Bool() // with AllowGlobalUpdate the statement is sent
+			}
+			if strings.HasPrefix(k, "begin_") {
+				in.FailBegin = false
+			}
+			if k == "exec_bad" {
+				in.Prep = false
+			}
 			in.X = &XOp{K: k, ID: id, Title: fmt.Sprintf("t'%d\"?;--", r.Intn(1000))}
 			kind = "edge"
 		} else {
@@ -562,6 +663,7 @@ func main() {
 				}
 			}
 			in.C01 = &c
+			in.Prep = false // generated SQL may be rejected at Prepare: no statement event to compare
 			in.Carry = r.Chance(1, 3)
 		}
 		add(kind, in)
